@@ -54,11 +54,7 @@ func c19NtLoad(repo string) (*c19nt, error) {
 	}
 	f := p.files[c19NtFile]
 	nt := &c19nt{p: p, f: f}
-	blocks := constBlocks(f)
-	if len(blocks) != 1 {
-		return nil, fmt.Errorf("%s: %d const blocks, expected 1", c19NtFile, len(blocks))
-	}
-	if nt.consts, err = p.readConstBlock(blocks[0], "NT_STATUS", "NT status constants"); err != nil {
+	if nt.consts, err = p.tableConsts(f, "NT_STATUS", "NT status constants"); err != nil {
 		return nil, err
 	}
 	seen := map[string]bool{}
